@@ -138,12 +138,14 @@ PROPS = {
     'C10': {
         'steps': [{'script': 'corr_calib.py', 'timeout': 1500, 'timeout_thorough': 6000},
                   {'script': 'corr_plan.py', 'timeout': 1500, 'timeout_thorough': 6000}],
-        'required_theorems': ['C10_scope_eq', 'C10_same_resolution', 'C10_scope_per_op'],
+        'required_theorems': ['C10_scope_eq', 'C10_same_resolution', 'C10_scope_per_op',
+                              'C10_calibration_records_every_runtime_operand_of_selected_ops',
+                              'C10_missing_statistics_only_for_absent_runtime_entry'],
         'rule': CALIB_RULE,
         'trusted_base': COMMON_TB + GRAPH_TB,
         'assumptions': GRAPH_ASSUME + [
             'C10_scope_eq is about the two scope functions as regenerated from calibrator.py and params_generator.py; the regex engine is a parameter',
-            'the no-missing-statistics clause is executed (quantize(calibrate()) on every case), not yet a theorem'],
+            'no-missing-statistics: both halves are theorems (calibration records every runtime operand of every selected op after one sample; the plan raises the error only for a runtime tensor without entry); their composition through the materializers is executed (quantize(calibrate()) on every case), not one theorem'],
     },
     'C17': {
         'steps': [{'script': 'corr_arith.py', 'timeout': 1500, 'timeout_thorough': 6000}],
